@@ -350,6 +350,70 @@ func driveC15(args []string) error {
 			}
 		}
 	}
+	// every stop's own offset is hit by a pixel centre (one pixel = 1/64, offset x/64 at pixel x), ranges of many widths,
+	// colours that jump between nothing and full from stop to stop: at a stop's offset the colour is that stop's colour
+	for k := 0; k < 12; k++ {
+		ns := []int{2, 3, 5, 9, 17, 33, 58, 4, 7, 12, 25, 40}[k]
+		stops := randGradStops(rng, ns)
+		for j := range stops {
+			stops[j].C = [][4]int{{0, 0, 0, 0}, {255, 255, 255, 255}, {0, 0, 0, 255}, {255, 0, 128, 255}, {1, 0, 0, 1}}[(j+k)%5]
+			if j%2 == 0 {
+				stops[j].C = [][4]int{{0, 0, 0, 0}, {0, 0, 0, 255}}[(j/2+k)%2]
+			}
+		}
+		var st []render.Stop
+		for _, s := range stops {
+			st = append(st, render.Stop{Offset: float64(s.O.float()), RGBA64: color.RGBA64{uint16(s.C[0]) * 0x101, uint16(s.C[1]) * 0x101, uint16(s.C[2]) * 0x101, uint16(s.C[3]) * 0x101}})
+		}
+		for spread := 0; spread < 4; spread++ {
+			for shape := 0; shape < 2; shape++ {
+				var g render.Gradient
+				aff := render.Aff3{1.0 / 64, 0, -1.0 / 128, 0, 1.0 / 64, -1.0 / 128}
+				if g.Init(render.Shape(shape), render.Spread(spread), aff, st) {
+					for x := -3; x <= 132; x++ {
+						emitPix("Gradient.Init/stophit", &g, &g, stops, x, 0)
+					}
+					stats["stophit"]++
+				}
+			}
+		}
+	}
+	// the same on the 2^-12 grid with range widths w for which w * (1/w) is not 1 in float64 (the quotient w / w is):
+	// the upper stop of such a range, hit exactly, still shows that stop's colour
+	{
+		var odd []int
+		for w := 3; w <= 3900; w++ {
+			if f := float64(w) / 4096; f*(1/f) != 1 {
+				odd = append(odd, w)
+			}
+		}
+		for k := 0; k < 40 && len(odd) > 0; k++ {
+			w := odd[rng.Intn(len(odd))]
+			o0 := 60 + rng.Intn(3980-w-60+1) // o0 >= 60, o0 + w <= 3980 (units of 2^-12)
+			c0, c1 := [4]int{0, 0, 0, 0}, [4]int{255, 255, 255, 255}
+			if k%3 == 1 {
+				c0, c1 = [4]int{0, 0, 0, 255}, [4]int{255, 128, 64, 255}
+			}
+			stops := []stopJ{{C: c0, O: f32j(float32(o0) / 4096)}, {C: c1, O: f32j(float32(o0+w) / 4096)}}
+			if k%2 == 1 { // the odd range is the second of three
+				stops = append([]stopJ{{C: [4]int{9, 9, 9, 9}, O: f32j(float32(o0-50) / 4096)}}, stops...)
+				stops = append(stops, stopJ{C: [4]int{0, 0, 0, 77}, O: f32j(float32(o0+w+100) / 4096)})
+			}
+			var st []render.Stop
+			for _, s := range stops {
+				st = append(st, render.Stop{Offset: float64(s.O.float()), RGBA64: color.RGBA64{uint16(s.C[0]) * 0x101, uint16(s.C[1]) * 0x101, uint16(s.C[2]) * 0x101, uint16(s.C[3]) * 0x101}})
+			}
+			var g render.Gradient
+			// offset at pixel (x, 0) = x / 4096 + 1/2
+			aff := render.Aff3{1.0 / 4096, 0, 0.5 - 1.0/8192, 0, 1.0 / 4096, -1.0 / 8192}
+			if g.Init(render.ShapeLinear, render.Spread(k%4), aff, st) {
+				for _, o := range []int{o0, o0 + w, o0 + w - 1, o0 + w + 1, o0 + 1} {
+					emitPix("Gradient.Init/stophit", &g, &g, stops, o-2048, 0)
+				}
+				stats["stophit.oddwidth"]++
+			}
+		}
+	}
 	// offsets astronomically far outside [0,1]: the translation is +-2^e (an even integer, exact in float32 and
 	// float64), the pixel term supplies a small dyadic part; the spread rules still decide the colour (period 2)
 	for _, e := range []int{31, 32, 33, 40, 46} {
